@@ -38,3 +38,23 @@ pub fn filter_from_nodes(v4: &[(u32, u16, u16)], v6: &[(u32, u16, u16)]) -> Filt
         ipv6_filter: BitTree { nodes: v6.iter().map(|&(child_offset, inset, outset)| TreeNode { child_offset, inset, outset }).collect() },
     })
 }
+
+// Loop-free variants for fixed table widths (a copy loop would force the harness' unwinding
+// bound, and with it every `lookup` loop, up to the table width).
+macro_rules! node_at {
+    ($v:expr, $i:expr) => {
+        TreeNode { child_offset: $v[$i].0, inset: $v[$i].1, outset: $v[$i].2 }
+    };
+}
+pub fn filter_from_nodes_16_1(v4: &[(u32, u16, u16); 16], v6: &[(u32, u16, u16); 1]) -> Filter {
+    Filter(IpFilter {
+        ipv4_filter: BitTree { nodes: vec![node_at!(v4, 0), node_at!(v4, 1), node_at!(v4, 2), node_at!(v4, 3), node_at!(v4, 4), node_at!(v4, 5), node_at!(v4, 6), node_at!(v4, 7), node_at!(v4, 8), node_at!(v4, 9), node_at!(v4, 10), node_at!(v4, 11), node_at!(v4, 12), node_at!(v4, 13), node_at!(v4, 14), node_at!(v4, 15)] },
+        ipv6_filter: BitTree { nodes: vec![node_at!(v6, 0)] },
+    })
+}
+pub fn filter_from_nodes_1_64(v4: &[(u32, u16, u16); 1], v6: &[(u32, u16, u16); 64]) -> Filter {
+    Filter(IpFilter {
+        ipv4_filter: BitTree { nodes: vec![node_at!(v4, 0)] },
+        ipv6_filter: BitTree { nodes: vec![node_at!(v6, 0), node_at!(v6, 1), node_at!(v6, 2), node_at!(v6, 3), node_at!(v6, 4), node_at!(v6, 5), node_at!(v6, 6), node_at!(v6, 7), node_at!(v6, 8), node_at!(v6, 9), node_at!(v6, 10), node_at!(v6, 11), node_at!(v6, 12), node_at!(v6, 13), node_at!(v6, 14), node_at!(v6, 15), node_at!(v6, 16), node_at!(v6, 17), node_at!(v6, 18), node_at!(v6, 19), node_at!(v6, 20), node_at!(v6, 21), node_at!(v6, 22), node_at!(v6, 23), node_at!(v6, 24), node_at!(v6, 25), node_at!(v6, 26), node_at!(v6, 27), node_at!(v6, 28), node_at!(v6, 29), node_at!(v6, 30), node_at!(v6, 31), node_at!(v6, 32), node_at!(v6, 33), node_at!(v6, 34), node_at!(v6, 35), node_at!(v6, 36), node_at!(v6, 37), node_at!(v6, 38), node_at!(v6, 39), node_at!(v6, 40), node_at!(v6, 41), node_at!(v6, 42), node_at!(v6, 43), node_at!(v6, 44), node_at!(v6, 45), node_at!(v6, 46), node_at!(v6, 47), node_at!(v6, 48), node_at!(v6, 49), node_at!(v6, 50), node_at!(v6, 51), node_at!(v6, 52), node_at!(v6, 53), node_at!(v6, 54), node_at!(v6, 55), node_at!(v6, 56), node_at!(v6, 57), node_at!(v6, 58), node_at!(v6, 59), node_at!(v6, 60), node_at!(v6, 61), node_at!(v6, 62), node_at!(v6, 63)] },
+    })
+}
